@@ -193,6 +193,9 @@ func (m *Model) terminal(pos int, match func(Tok) bool) Res {
 
 func (m *Model) litMatch(e *Expr) func(Tok) bool {
 	return func(t Tok) bool {
+		if e.S == "" {
+			return e.T == "" || e.T == t.Type // a literal without text only constrains the type, if it names one
+		}
 		eq := t.Value == e.S
 		if m.G.IsCI(t.Type) {
 			eq = strings.EqualFold(t.Value, e.S)
@@ -223,6 +226,17 @@ func (m *Model) eval(e *Expr, pos int) Res {
 	}
 	switch e.Kind {
 	case KLit:
+		if e.S == "" && e.T == "" {
+			// the empty untyped literal takes the very next token whatever it is -- an elided one too; at the end of
+			// the input it matches the EOF token, which is not consumed
+			if m.Raw[pos].EOF {
+				r := Res{K: Match, Pos: pos, NVals: 1, First: -1, Last: -1}
+				if m.capDepth > 0 {
+					r.Texts = []string{""}
+				}
+				return r
+			}
+		}
 		r := m.terminal(pos, m.litMatch(e))
 		if r.K == Match && e.T != "" {
 			m.TypedVsRef++
